@@ -111,13 +111,15 @@ def run(rep, tier):
         ('SPILL-kind', 'helper kind (generator / plain) fits the way it is invoked; result assigned to the registers'),
         ('CONV-arity', 'helpers are called with exactly their parameters'),
         ('FREE-name', 'a helper receives every name its body reads'),
+        ('LOCAL-shadow', 'a helper split off a rule function is handed the names bound in that function that it uses '
+                         '(it does not fall back on rules of the same name)'),
         ('WIRE-ctx-param', 'in the context convention a rule function or helper that mentions _ctx receives it '
                            'as a parameter (the module global is the defining grammar, not the one being parsed)'),
         ('NO-recursion', 'no direct rule calls; driver and walkers are cycle-free'),
         ('ROUTE-raises', 'the deep-nesting route compiles'),
     ]:
         rep.rule(rid, txt)
-    found, stats, nmods = routes.run(rep, 'C17', ['SPILL-', 'CONV-', 'FREE-name', 'WIRE-ctx-param'],
+    found, stats, nmods = routes.run(rep, 'C17', ['SPILL-', 'CONV-', 'FREE-name', 'WIRE-ctx-param', 'LOCAL-shadow'],
                                      label_filter=lambda msg: msg.startswith('deep-nesting'))
     rep.floor('route modules emitted', nmods, 32)
     rep.count('spill helper invocations examined', stats.get('spills', 0))
